@@ -186,7 +186,9 @@ func c16(tier string) int {
 	u := uni.New(ev.Seed(), n, []int{0, 2})
 	gen := wh.NewCPGen(u)
 	la := wh.LogCfg{Origin: logA(), Key: u.K1}
-	lb := wh.LogCfg{Origin: logB(), Key: u.K2}
+	// Log B's origin carries characters that matter to formatting, routing and
+	// escaping code (%, space, non-ASCII); its ID is still a hex digest.
+	lb := wh.LogCfg{Origin: logB() + " 100%sure %25 %d \u2014 caf\u00e9", Key: u.K2}
 	lc := wh.LogCfg{Origin: logC(), Key: u.K1}
 	logs := []wh.LogCfg{la, lb, lc}
 	setup := func(e *wh.Env) {
@@ -200,7 +202,7 @@ func c16(tier string) int {
 	prelude := []wh.Req{{LogID: lb.ID(), CP: cpB, Meta: mB, Label: "prelude: first use of log B"}}
 	states, trans := 0, int64(0)
 	for _, store := range []string{"mem", "sql"} {
-		alpha := wh.AlphaOpts{MaxN: n, Forged: true, RichProof: false, HugeOlds: true}
+		alpha := wh.AlphaOpts{MaxN: n, Forged: true, RichProof: false, HugeOlds: true, Shapes: []string{"plain", "ext"}}
 		fn := func(st wh.MState) []wh.Req {
 			reqs := wh.Alphabet(gen, la, st, alpha)
 			// Refused first submissions for log C (never has a checkpoint).
